@@ -162,11 +162,16 @@ class AbsColl(HeapObj):
     """abstract collection of unknown, unbounded size.  Iteration is only
     possible through the map rule.  `elem(cx, tag)` builds a generic
     element."""
-    def __init__(self, name, elem, kind="set"):
+    def __init__(self, name, elem, kind="set", origin=None):
         super().__init__()
         self.name = name
         self.elem = elem
         self.kind = kind
+        self.origin = origin if origin is not None else self      # same elements
+
+    def clone(self, kind=None):
+        """a new container object holding the same elements (set(x), copy)"""
+        return AbsColl(self.name, self.elem, kind or self.kind, origin=self.origin)
 
 
 class MapSummary:
